@@ -116,7 +116,7 @@ example : (Spec.cell State.init.toObs .endPlayer {}).stateErr = true := by decid
 /-- **C05_state.**  Only load, release, start, end and context re-creation change the player state, and only
     along the documented edges: load → LOADED (UNLOADED on failure), release → UNLOADED, start → PLAYING
     (a failing start of a playing context ends it: LOADED), end: PLAYING → LOADED. -/
-theorem setPlayer_st (s : State) (parm val : Int) : (setPlayer s parm val).state.st = s.st := (setPlayer_frame s parm val).1
+theorem setPlayer_st (s : State) (parm val : Int) (e : Env) : (setPlayer s parm val e).state.st = s.st := (setPlayer_frame s parm val e).1
 
 theorem C05_state (s : State) (c : Call) (e : Env) (hi : ApiInv s) (he : EnvOk s c e = true)
     (hne : (step s c e).state.st ≠ s.st) :
